@@ -6,7 +6,7 @@ from .common import Run, corpus_cases, generic_replay, parse_list, all_flags
 PROP = "C18"
 MODULE = "PLS.Props.C18"
 THEOREMS = ["PLS.C18_priority_table", "PLS.C18_sort_classes", "PLS.C18_excluded_iff", "PLS.C18_labels_nodup",
-            "PLS.C18_func_context", "PLS.C18_parametrize_iff_indirect"]
+            "PLS.C18_func_context", "PLS.C18_parametrize_iff_indirect", "PLS.C18_valid_uses_ast"]
 RULE = ("(A) every cursor line of generated documents (module level, decorators, multi-line signatures, bodies, nested "
         "classes, non-test functions) and of the incomplete 'while typing' forms: get_completion_context compared with "
         "the Lean model (AST path + text fallback) and, for valid documents, with an oracle computed from CPython's AST "
